@@ -12,7 +12,9 @@ from ..common import Result, Violation
 from ..symx import And, CexFound, ConcreteEngine, Engine, explore
 
 PROP = "C10"
-MD = [None, {"k": "A"}, {"k": "B"}]
+# the last two are not fixed points of a JSON round trip (tuple -> list, int key -> str): equal arguments must still be
+# recognised as "metadata did not change"
+MD = [None, {"k": "A"}, {"k": "B"}, {"k": ("A", 1)}, {"k": {1: "B"}}]
 FUNCS = [
     "sedpack.io.dataset_filler:_DatasetFillerContext.write_example",
     "sedpack.io.dataset_filler:_DatasetFillerContext.close_shard",
@@ -52,7 +54,7 @@ def scenario(e, cfg):
                         sp = ("train", "test")[e.choice(f"split{s}_{i}", 2)]
                     md = None
                     if cfg["md"]:
-                        md = MD[e.choice(f"md{s}_{i}", 3)]
+                        md = MD[e.choice(f"md{s}_{i}", cfg.get("mdn", 3))]
                     ctx.write_example(values=fillerlab.example(len(history)), split=sp,
                                       custom_metadata=(dict(md) if md else None))
                     writes[sp].append(md)
@@ -100,7 +102,7 @@ def cells(tier):
         for n0 in range(0, 6):
             out.append(dict(name="interleaved-splits", nmax=5, sessions=1, splits=True, md=False, fixed={"n0": n0}))
         for n0 in range(0, 5):
-            out.append(dict(name="metadata", nmax=4, sessions=1, splits=False, md=True, fixed={"n0": n0}))
+            out.append(dict(name="metadata", nmax=4, sessions=1, splits=False, md=True, mdn=4, fixed={"n0": n0}))
     else:
         for n0 in range(0, 17):
             out.append(dict(name="single-split", nmax=16, sessions=1, splits=False, md=False, fixed={"n0": n0}))
@@ -110,6 +112,8 @@ def cells(tier):
             out.append(dict(name="interleaved-splits", nmax=8, sessions=1, splits=True, md=False, fixed={"n0": n0}))
         for n0 in range(0, 7):
             out.append(dict(name="metadata", nmax=6, sessions=1, splits=False, md=True, fixed={"n0": n0}))
+        for n0 in range(0, 5):
+            out.append(dict(name="metadata (incl. non-JSON-stable values)", nmax=4, sessions=1, splits=False, md=True, mdn=5, fixed={"n0": n0}))
         for n0 in range(0, 5):
             out.append(dict(name="metadata+splits", nmax=4, sessions=1, splits=True, md=True, fixed={"n0": n0}))
         for n0 in range(0, 4):
@@ -153,7 +157,7 @@ def _cfg_for(model, cs):
     # the model names tell which variables were used; replay needs sessions/splits/md flags
     sessions = 1 + max([int(k[1:]) for k in model if k.startswith("n") and k[1:].isdigit()] or [0])
     return dict(nmax=64, sessions=sessions, splits=any(k.startswith("split") for k in model),
-                md=any(k.startswith("md") for k in model))
+                md=any(k.startswith("md") for k in model), mdn=5)
 
 
 def _dedup(vs):
